@@ -191,8 +191,14 @@ class C17:
                     "has width or width + 1 samples (steps 0.1, 0.01, 1/3, 0.7) -- the count must come from an integer generator",
                     deleg[0].lineno, witness={"step": 0.1, "observed": "width + 1 samples"})
             return
+        if len(re) > 1:
+            # one reindex per position: whatever the placement, every one of them fills with the caller's value
+            for e_ in re:
+                if callkw(e_.term).get("fill_value") != fill:
+                    ctx.bad("R17.6", self.file, "extend_dim_width", f"reindex(fill_value={show(callkw(e_.term).get('fill_value', NONE))}) under {show(e_.live)[-50:]}",
+                            "new samples must be filled with the caller's fill_value on every path (this reindex does not receive it)", e_.lineno)
         if len(re) != 1:
-            ctx.undec("R17.6", site, "array.reindex(...) not found")
+            ctx.undec("R17.6", site, "array.reindex(...) not found" if not re else f"{len(re)} reindex calls (one per position): the placement is not read in this form")
             return
         rk = callkw(re[0].term)
         if rk.get("fill_value") == fill:
